@@ -427,7 +427,7 @@ _RE_EMPTY_ATTR_SPHINX = re.compile(r"^\s*:(var|ivar|cvar)", re.MULTILINE)
 _RE_EMPTY_ITEM = re.compile(r"^\s*:", re.MULTILINE)
 ALL_FINDINGS = ["C12-empty-attr-name", "C12-annotation-compile-too-complex", "C12-numpy-parent-annotation-index",
                 "C12-google-single-block-empty", "C12-google-property-summary-not-text",
-                "C12-builtin-module-parent-annotation-error"]
+                "C12-builtin-module-parent-annotation-error", "C12-attr-named-like-unresolved-import"]
 
 
 def griffe_frames(exc: BaseException) -> list[tuple[str, str, str]]:
@@ -439,7 +439,8 @@ def griffe_frames(exc: BaseException) -> list[tuple[str, str, str]]:
     return out
 
 
-def classify_exception(case: dict, exc: BaseException, pkind: str, no_filepath: bool = False) -> str | None:  # noqa: PLR0911
+def classify_exception(case: dict, exc: BaseException, pkind: str, no_filepath: bool = False,  # noqa: PLR0911
+                       alias_names: frozenset = frozenset()) -> str | None:
     frames = griffe_frames(exc)
     if not frames:
         return None
@@ -466,6 +467,10 @@ def classify_exception(case: dict, exc: BaseException, pkind: str, no_filepath: 
             and "sections[0].value.lstrip()" in frames[-1][2] and opts.get("returns_type_in_property_summary") is True
             and pkind == "property"):
         return "C12-google-property-summary-not-text"
+    if (type(exc).__name__ in ("AliasResolutionError", "CyclicAliasError") and last_doc[1] in ("_read_attributes_section", "_read_attribute")
+            and "docstring.parent[name]" in last_doc[2] and alias_names
+            and re.search(r"(?<![\w.])(" + "|".join(re.escape(a) for a in sorted(alias_names)) + r")(?![\w])", text)):
+        return "C12-attr-named-like-unresolved-import"
     if (type(exc).__name__ == "BuiltinModuleError" and no_filepath and "safe_get_expression" in funcs
             and "parse_docstring_annotation" in funcs
             and any(f[1] == "safe_get_expression" and "parent.relative_filepath" in f[2] for f in frames)):
@@ -512,6 +517,24 @@ def has_no_filepath(obj) -> bool:  # noqa: ANN001
     except Exception as exc:  # noqa: BLE001
         return type(exc).__name__ == "BuiltinModuleError"
     return False
+
+
+def unresolved_alias_names(obj) -> frozenset:  # noqa: ANN001
+    """Names of the parent's members (inherited ones included) that are aliases whose target cannot be resolved."""
+    out = set()
+    if obj is None:
+        return frozenset()
+    try:
+        members = dict(obj.all_members) if hasattr(obj, "all_members") else {}
+    except Exception:  # noqa: BLE001
+        members = dict(getattr(obj, "members", {}))
+    for name, member in members.items():
+        if member.is_alias:
+            try:
+                member.final_target  # noqa: B018
+            except Exception:  # noqa: BLE001
+                out.add(name)
+    return frozenset(out)
 
 
 def make_case(text: str, style: str, options: dict, route: str, ref, lineno, prose: str | None) -> dict:  # noqa: ANN001
@@ -587,7 +610,7 @@ def run_case(rec, case: dict, env: Env | None = None) -> None:  # noqa: ANN001, 
         rec.inconclusive(case, "per-case wall-clock watchdog fired (120 s) before any logical budget did")
         return
     except Exception as exc:  # noqa: BLE001
-        fid = classify_exception(case, exc, pkind, has_no_filepath(parent))
+        fid = classify_exception(case, exc, pkind, has_no_filepath(parent), unresolved_alias_names(parent))
         rec.fail_exc(case, f"{style} parser raised {type(exc).__name__}", exc, finding=fid, nontrivial=nontrivial, tags=tags, tried=ALL_FINDINGS)
         if parent is not None and parent.as_json() != parent_before:
             env.drop(modkey)
